@@ -45,6 +45,15 @@ def qrel(v):
     return min(CLAMP, int(round(v * 1e12)))
 
 
+def qlog(a, b):
+    """|ln(a/b)| x 1e6, clamped: a deviation measure that does not saturate at 2e-3"""
+    try:
+        v = abs(math.log(a / b))
+    except (ValueError, ZeroDivisionError):
+        return CLAMP
+    return min(CLAMP, int(round(v * 1e6))) if math.isfinite(v) else CLAMP
+
+
 def qsigned(v):
     v = float(v)
     if v != v:
@@ -297,7 +306,7 @@ def free_histories(vc, c, x, method, warg, warr, base):
         e0 = xspace_error(xs, p, wn, d2) if ok else float("nan")
         em = xspace_error(xs, p, wn, d2 - h) if ok and d2 - h > 0 else float("inf")
         ep = xspace_error(xs, p, wn, d2 + h) if ok else float("nan")
-        out.append(dict(name=name, ab=max(qrel((a2 - al) / al), qrel((b2 - be) / be)) if ok else CLAMP,
+        out.append(dict(name=name, abl=max(qlog(a2, al), qlog(b2, be)) if ok else CLAMP,
                         dd=abs(q6(d2) - q6(de)) if ok else CLAMP, dq=q6(d2) if ok else 0,
                         g=qrel(gradient(xs, p, wn, d2, a2, b2)) if ok else CLAMP,
                         emdef=bool(math.isfinite(em)), epdef=bool(math.isfinite(ep)),
@@ -354,6 +363,7 @@ def law_record(vc, rid, c, seed):
                 rec["variants"].append(dict(
                     name=name,
                     ab=max(qrel((a2 - al) / al), qrel((b2 - be) / be)),
+                    abl=max(qlog(a2, al), qlog(b2, be)) if ok else CLAMP,
                     dd=abs(q6(d2) - q6(de)) if ok else CLAMP,
                     g=qrel(gradient(xs2, p2, wn2, d2, a2, b2)) if ok else CLAMP))
 
@@ -541,7 +551,7 @@ def selftest(ctx, law_recs, disc_recs, failing):
     if int_ is not None:
         m(int_, "IntegerSameAsFloat", variants=withvar(int_, "intdtype", ab=10**8))
     m(free_arr, "WeightScaleInvariant", variants=withvar(free_arr, "scaled", dd=5000))
-    m(free_arr, "WeightScaleInvariant", variants=withvar(free_arr, "scaled", ab=2 * 10**9))
+    m(free_arr, "WeightScaleInvariant", variants=withvar(free_arr, "scaled", abl=2 * 10**9))
     m(free_arr, "ZeroIgnored", variants=withvar(free_arr, "zeroweights", g=10**6))
     m(free_arr, "DeltaLocalMin", em=-5000)
     m(free_arr, "DeltaLocalMin", hq=free_arr["hq"] + 10)
@@ -596,6 +606,7 @@ def run(ctx):
                     must_cover=("Dispatch", "Sort", "Weights", "Rank", "DropZeros"), workers=8)
     ctx.model_check("EwLsq", "MC_EwLsq_mut_cosort.cfg", expect_violation="OrderInvariant", workers=4)
     ctx.model_check("EwLsq", "MC_EwLsq_mut_cosort2.cfg", expect_violation="KeywordEqualsArray", workers=4)
+    ctx.model_check("EwLsq", "MC_EwLsq_mut_ties.cfg", expect_violation="OrderInvariant", workers=4)
     ctx.model_check("EwLsq", "MC_EwLsq_mut_zeros.cfg", expect_violation="PositionsAfterRanking", workers=4)
     ctx.model_check("EwLsq", "MC_EwLsq_mut_pos.cfg", expect_violation="PositionsAfterRanking", workers=4)
     ctx.model_check("EwLsq", "MC_EwLsq_mut_sharedpos.cfg", expect_violation="LinearisedForOwnDelta", workers=4)
